@@ -56,3 +56,82 @@ package mqtt
 //@ ensures[C06] hastype(err, *BigMessage) ==> head / 16 == 3 && unbox(err, *BigMessage).Client == c && unbox(err, *BigMessage).Size > rx_size(c.bufr)
 //@ ensures[C06] hastype(err, *BigMessage) ==> unbox(err, *BigMessage).Size == vdec(rx_stream(c.bufr), old(rx_pos(c.bufr)) + 1, rx_pos(c.bufr) - old(rx_pos(c.bufr)) - 1)
 //@ ensures[C06,id=big_full_buffer] hastype(err, *BigMessage) ==> len(c.peek) == rx_size(c.bufr) && forall(k, 0, len(c.peek), c.peek[k] == rx_stream(c.bufr)[rx_pos(c.bufr) + k])
+
+// write: the packet goes to the connection found in the write semaphore, or nowhere.
+//@ func mqtt.(*Client).write -> err
+//@ unverified
+//@ modifies wire, wire_len, wclosed, wdl, chanstate(c.writeSem)
+
+//@ func mqtt.(*Client).onPUBACK -> err
+//@ requires c.persistence != nil && c.atLeastOnce.queue != nil
+//@ requires forall(i, 0, len(c.atLeastOnce.queue), qat(c.atLeastOnce.queue, i) != nil && !closed(qat(c.atLeastOnce.queue, i)))
+//@ ensures[C01,C13] err == nil ==> len(c.peek) == 2 && c.peek[0]*256 + c.peek[1] == 32768 + old(c.Acked) % 16384
+//@ ensures[C01,C13] err == nil ==> old(len(c.atLeastOnce.queue)) > 0 && len(c.atLeastOnce.queue) == old(len(c.atLeastOnce.queue)) - 1
+//@ ensures[C01,C13] err == nil ==> c.Acked == (old(c.Acked) + 1) % 18446744073709551616 && closed(old(qat(c.atLeastOnce.queue, 0)))
+//@ ensures[C01,C13] err == nil ==> !st_has(c.persistence, 32768 + old(c.Acked) % 16384)
+//@ ensures[C01,C13] err != nil ==> c.Acked == old(c.Acked) && len(c.atLeastOnce.queue) == old(len(c.atLeastOnce.queue))
+//@ ensures[C01,C13] err != nil ==> forall(k, st_has(c.persistence, k) == old(st_has(c.persistence, k)))
+//@ ensures[C01,C13] err != nil ==> forall(i, 0, len(c.atLeastOnce.queue), closed(qat(c.atLeastOnce.queue, i)) == old(closed(qat(c.atLeastOnce.queue, i))))
+//@ ensures[C01,C13] forall(k, k != 32768 + old(c.Acked) % 16384 ==> st_has(c.persistence, k) == old(st_has(c.persistence, k)))
+
+//@ func mqtt.(*Client).onPUBCOMP -> err
+//@ requires c.persistence != nil && c.exactlyOnce.queue != nil
+//@ requires forall(i, 0, len(c.exactlyOnce.queue), qat(c.exactlyOnce.queue, i) != nil && !closed(qat(c.exactlyOnce.queue, i)))
+//@ ensures[C01,C03,C13] err == nil ==> len(c.peek) == 2 && c.peek[0]*256 + c.peek[1] == 49152 + old(c.Completed) % 16384
+//@ ensures[C01,C03,C13] err == nil ==> old(c.Completed) < old(c.Received) && old(len(c.exactlyOnce.queue)) > 0 && len(c.exactlyOnce.queue) == old(len(c.exactlyOnce.queue)) - 1
+//@ ensures[C01,C03,C13] err == nil ==> c.Completed == old(c.Completed) + 1 && c.Received == old(c.Received) && closed(old(qat(c.exactlyOnce.queue, 0)))
+//@ ensures[C01,C03,C13] err == nil ==> !st_has(c.persistence, 49152 + old(c.Completed) % 16384)
+//@ ensures[C01,C03,C13] err != nil ==> c.Completed == old(c.Completed) && c.Received == old(c.Received) && len(c.exactlyOnce.queue) == old(len(c.exactlyOnce.queue))
+//@ ensures[C01,C03,C13] err != nil ==> forall(k, st_has(c.persistence, k) == old(st_has(c.persistence, k)))
+//@ ensures[C01,C03,C13] err != nil ==> forall(i, 0, len(c.exactlyOnce.queue), closed(qat(c.exactlyOnce.queue, i)) == old(closed(qat(c.exactlyOnce.queue, i))))
+//@ ensures[C01,C03,C13] forall(k, k != 49152 + old(c.Completed) % 16384 ==> st_has(c.persistence, k) == old(st_has(c.persistence, k)))
+
+// onPUBREC: Save(PUBREL) first, then count, then write.
+//@ func mqtt.(*Client).onPUBREC -> err
+//@ requires c.persistence != nil && c.exactlyOnce.queue != nil
+//@ requires c.Completed <= c.Received && c.Received - c.Completed <= 16384
+//@ requires ref(c.peek) != ref(c.pendingAck) || ref(c.peek) == 0
+//@ ensures[C03,C13] c.Received == old(c.Received) || c.Received == wrap64(old(c.Received) + 1)
+//@ ensures[C03,C13] c.Received == wrap64(old(c.Received) + 1) ==> len(c.peek) == 2 && c.peek[0]*256 + c.peek[1] == 49152 + old(c.Received) % 16384 && old(c.Received) - old(c.Completed) < old(len(c.exactlyOnce.queue))
+//@ ensures[C03] c.Received == wrap64(old(c.Received) + 1) ==> st_has(c.persistence, 49152 + old(c.Received) % 16384) && st_len(c.persistence, 49152 + old(c.Received) % 16384) == 4
+//@ ensures[C03] c.Received == wrap64(old(c.Received) + 1) ==> st_val(c.persistence, 49152 + old(c.Received) % 16384)[0] == 98 && st_val(c.persistence, 49152 + old(c.Received) % 16384)[1] == 2 && st_val(c.persistence, 49152 + old(c.Received) % 16384)[2] * 256 + st_val(c.persistence, 49152 + old(c.Received) % 16384)[3] == 49152 + old(c.Received) % 16384
+//@ ensures[C03,C13] c.Received == old(c.Received) ==> err != nil && forall(k, st_has(c.persistence, k) == old(st_has(c.persistence, k)) && st_len(c.persistence, k) == old(st_len(c.persistence, k)) && st_val(c.persistence, k) == old(st_val(c.persistence, k)))
+//@ ensures[C03,C13] c.Completed == old(c.Completed) && len(c.exactlyOnce.queue) == old(len(c.exactlyOnce.queue))
+//@ ensures[C03] err == nil ==> c.Received == wrap64(old(c.Received) + 1) && len(c.pendingAck) == 0
+//@ ensures[C03,C07] err != nil && c.Received == wrap64(old(c.Received) + 1) ==> len(c.pendingAck) == 4 && c.pendingAck[0] == 98 && c.pendingAck[1] == 2 && c.pendingAck[2] * 256 + c.pendingAck[3] == 49152 + old(c.Received) % 16384
+//@ ensures[C03] err != nil && c.Received == old(c.Received) ==> len(c.pendingAck) == 0 || c.pendingAck == old(c.pendingAck)
+
+// onPUBREL: Delete(marker) first, PUBCOMP only after; also for unknown identifiers.
+//@ func mqtt.(*Client).onPUBREL -> err
+//@ requires c.persistence != nil
+//@ requires ref(c.peek) != ref(c.pendingAck) || ref(c.peek) == 0
+//@ ensures[C04,C13] err == nil ==> len(c.peek) == 2 && c.peek[0]*256 + c.peek[1] != 0 && !st_has(c.persistence, 65536 + c.peek[0]*256 + c.peek[1]) && len(c.pendingAck) == 0
+//@ ensures[C04,C13] len(c.peek) != 2 || c.peek[0]*256 + c.peek[1] == 0 ==> err != nil && forall(k, st_has(c.persistence, k) == old(st_has(c.persistence, k))) && c.pendingAck == old(c.pendingAck)
+//@ ensures[C04] forall(k, len(c.peek) == 2 && k != 65536 + c.peek[0]*256 + c.peek[1] ==> st_has(c.persistence, k) == old(st_has(c.persistence, k)))
+//@ ensures[C04,C07] err != nil && len(c.pendingAck) != old(len(c.pendingAck)) ==> len(c.pendingAck) == 4 && c.pendingAck[0] == 112 && c.pendingAck[1] == 2 && c.pendingAck[2] == c.peek[0] && c.pendingAck[3] == c.peek[1] && !st_has(c.persistence, 65536 + c.peek[0]*256 + c.peek[1])
+//@ at[C04] call write#1: assert !st_has(c.persistence, 65536 + c.peek[0]*256 + c.peek[1]) && len(p) == 4 && p[0] == 112 && p[1] == 2 && p[2] == c.peek[0] && p[3] == c.peek[1]
+
+//@ func mqtt.(*Client).onPINGRESP -> err
+//@ requires c.pingAck != nil && !closed(c.pingAck)
+//@ requires len(c.pingAck) > 0 ==> qat(c.pingAck, 0) != nil && !closed(qat(c.pingAck, 0))
+//@ ensures[C13] (err != nil) == (len(c.peek) != 0)
+//@ ensures[C11,C13] err != nil ==> len(c.pingAck) == old(len(c.pingAck))
+//@ ensures[C11] err == nil && old(len(c.pingAck)) > 0 ==> closed(old(qat(c.pingAck, 0))) && len(c.pingAck) == old(len(c.pingAck)) - 1
+
+// onPUBLISH only slices c.peek and queues the acknowledgement; nothing is written.
+//@ func mqtt.(*Client).onPUBLISH -> message, topic, err
+//@ requires c.persistence != nil
+//@ requires ref(c.peek) != ref(c.pendingAck) || ref(c.peek) == 0
+//@ ensures[C07] forall(k, wire_len(k) == old(wire_len(k)))
+//@ ensures[C06,C13] forall(k, 0, len(c.peek), c.peek[k] == old(c.peek[k])) && c.peek == old(c.peek)
+//@ ensures[C06] err == nil ==> len(c.peek) >= 2 && ref(topic) == ref(c.peek) && off(topic) == off(c.peek) + 2 && len(topic) == c.peek[0]*256 + c.peek[1]
+//@ ensures[C06] err == nil ==> ref(message) == ref(c.peek) && off(message) == off(c.peek) + 2 + len(topic) + ite((head/2)%4 != 0, 2, 0) && len(message) == len(c.peek) - 2 - len(topic) - ite((head/2)%4 != 0, 2, 0) && len(message) >= 0
+//@ ensures[C07] err == nil && (head/2)%4 == 0 ==> c.pendingAck == old(c.pendingAck)
+//@ ensures[C07] err == nil && (head/2)%4 == 1 ==> len(c.pendingAck) == 4 && c.pendingAck[0] == 64 && c.pendingAck[1] == 2 && c.pendingAck[2] == c.peek[2+len(topic)] && c.pendingAck[3] == c.peek[3+len(topic)]
+//@ ensures[C07,C04] err == nil && (head/2)%4 == 2 ==> len(c.pendingAck) == 4 && c.pendingAck[0] == 80 && c.pendingAck[1] == 2 && c.pendingAck[2] == c.peek[2+len(topic)] && c.pendingAck[3] == c.peek[3+len(topic)]
+//@ ensures[C07] err == nil && (head/2)%4 != 0 ==> old(len(c.pendingAck)) == 0 && c.peek[2+len(topic)]*256 + c.peek[3+len(topic)] != 0
+//@ ensures[C04] err == nil && (head/2)%4 == 2 ==> !st_has(c.persistence, 65536 + c.peek[2+len(topic)]*256 + c.peek[3+len(topic)])
+//@ ensures[C04] err == errDupe ==> (head/2)%4 == 2 && len(c.peek) >= 4 + c.peek[0]*256 + c.peek[1] && st_has(c.persistence, 65536 + c.peek[2 + c.peek[0]*256 + c.peek[1]]*256 + c.peek[3 + c.peek[0]*256 + c.peek[1]])
+//@ ensures[C13] err != nil ==> c.pendingAck == old(c.pendingAck) && forall(k, 0, len(c.pendingAck), c.pendingAck[k] == old(c.pendingAck[k]))
+//@ ensures[C13] (head/2)%4 == 3 || len(c.peek) < 2 || (len(c.peek) >= 2 && c.peek[0]*256 + c.peek[1] + 2 > len(c.peek)) ==> err != nil && Is(err, errProtoReset)
+//@ ensures[C04,C16] forall(k, st_has(c.persistence, k) == old(st_has(c.persistence, k)))
